@@ -1,6 +1,6 @@
 From Coq Require Import ZArith List String.
 From DRX Require Import Py.PyBytes Py.Val.
-From DRX Require Model.ScoreIO Model.RiffIO Model.IndexIO Model.XtractIO.
+From DRX Require Model.ScoreIO Model.RiffIO Model.IndexIO Model.XtractIO Model.SndIO.
 Import ListNotations.
 Open Scope string_scope.
 
@@ -19,7 +19,8 @@ Definition table : list (string * (val -> val)) := [
   ("parse_lnam", Model.IndexIO.run_parse_lnam);
   ("parse_vwlb", Model.IndexIO.run_parse_vwlb);
   ("parse_vwcf", Model.IndexIO.run_parse_vwcf);
-  ("extract", Model.XtractIO.run_extract)
+  ("extract", Model.XtractIO.run_extract);
+  ("snd_to_sampled", Model.SndIO.run_snd_to_sampled)
 ].
 
 Fixpoint lookup (n : string) (t : list (string * (val -> val))) : option (val -> val) :=
